@@ -67,6 +67,36 @@ theorem header_only_in_S0 (address : Nat) (data : List Nat) (hd : ∀ b ∈ data
   exact ⟨_, typ, dataRecs typ address (Model.SRec.chunks30 data), h5, h6, h1, h4, dataRecs_typ _ _ _,
     by rw [dataRecs_payload, (chunks30_spec data).1]⟩
 
+private theorem cellsOf_inj : ∀ (d d' : List Nat) (a a' : Nat), d ≠ [] →
+    cellsOf a d = cellsOf a' d' → a = a' ∧ d = d'
+  | [], _, _, _, h, _ => absurd rfl h
+  | _ :: _, [], _, _, _, h => by simp [cellsOf] at h
+  | b :: bs, b' :: bs', a, a', _, h => by
+    simp only [cellsOf, List.cons.injEq, Prod.mk.injEq] at h
+    obtain ⟨⟨ha, hb⟩, ht⟩ := h
+    subst ha hb
+    refine ⟨rfl, ?_⟩
+    cases bs with
+    | nil => cases bs' with
+      | nil => rfl
+      | cons _ _ => simp [cellsOf] at ht
+    | cons c cs => rw [(cellsOf_inj (c :: cs) bs' _ _ (by simp) ht).2]
+
+/-- The written file determines the code: no two different non-empty code sections
+    (different address OR different bytes) are ever written as the same file — nothing is
+    lost, truncated or aliased by the writer, for any length and any address below 2^32. -/
+theorem file_determines_code (a a' : Nat) (d d' : List Nat) (hd : ∀ b ∈ d, b < 256)
+    (hd' : ∀ b ∈ d', b < 256) (he : a + d.length ≤ 4294967296) (he' : a' + d'.length ≤ 4294967296)
+    (hne : d ≠ []) (lines : List (List Char))
+    (h : writeSrecord a d = .ok lines) (h' : writeSrecord a' d' = .ok lines) : a = a' ∧ d = d' := by
+  obtain ⟨l1, w1, r1⟩ := reader_decodes_written_file a d hd he
+  obtain ⟨l2, w2, r2⟩ := reader_decodes_written_file a' d' hd' he'
+  rw [h] at w1; rw [h'] at w2
+  cases w1; cases w2
+  rw [r1] at r2
+  simp only [Option.some.injEq, Image.mk.injEq] at r2
+  exact cellsOf_inj d d' a a' hne r2.2.1
+
 /-! ### non-vacuity and witnesses -/
 
 example : writeSrecord 0xFFFE [1, 2, 3] = .ok
